@@ -223,7 +223,30 @@ def tr_member_written(tree):
         return 'val_none' if isinstance(n, ast.Name) and n.id == 'val' else None
     cmp, num = cmp_ext({'min_o': 'min_o'})
     t = BoolTranslator(leaf, cmp, num, is_none).tr(st.test)
-    return 'Definition member_written (val_none : bool) (min_o : ext) (as_list : bool) : bool :=\n  %s.\n' % t
+    # the cycle guard: the set of ids handed down must be a copy per object (`tags = tags | {id(inst)}`), so that it
+    # holds the ANCESTORS of a member only; grown in place (`tags.add(id(inst))`) it would also hold every object
+    # written before, and an instance that occurs twice without being its own ancestor would be dropped
+    head = [ast.dump(x) for x in strip_doc(fn.body) if not isinstance(x, ast.For)]
+    copy_ = [ast.dump(x) for x in ast.parse("old_len = len(tags)\ntags = tags | {id(inst)}\n"
+                                            "assert len(tags) > old_len, ('Offending instance: %r' % inst)").body]
+    muts = [n for n in ast.walk(fn) if isinstance(n, ast.Call) and isinstance(n.func, ast.Attribute)
+            and isinstance(n.func.value, ast.Name) and n.func.value.id == 'tags'
+            and n.func.attr in ('add', 'update', 'discard', 'remove', 'clear', 'pop')]
+    aug = [n for n in ast.walk(fn) if isinstance(n, ast.AugAssign) and isinstance(n.target, ast.Name) and n.target.id == 'tags']
+    if head == copy_ and not muts and not aug:
+        guard = TRUE
+    elif muts or aug:
+        guard = FALSE
+    else:
+        raise TranslateError('_get_member_pairs: unrecognised handling of the cycle-detection set')
+    skip = [n for n in ast.walk(fn) if isinstance(n, ast.If) and ast.dump(n.test) == ast.dump(
+        ast.parse('id(subinst) in tags', mode='eval').body)]
+    if len(skip) != 1 or [ast.dump(x) for x in skip[0].body] != [ast.dump(ast.Continue())]:
+        raise TranslateError('_get_member_pairs: the member of an ancestor is no longer skipped by `if id(subinst) in tags: continue`')
+    return ('Definition member_written (val_none : bool) (min_o : ext) (as_list : bool) : bool :=\n  %s.\n'
+            '(* the id set of the cycle guard is copied per object: it holds the ancestors of a member only, so an\n'
+            '   instance that is shared but not its own ancestor is written every time (the model has no identities) *)\n'
+            'Definition cycle_guard_per_branch : bool := %s.\n' % (t, guard))
 
 
 def tr_object_to_doc(tree):
